@@ -172,6 +172,19 @@ func cmdFunc(args []string) int {
 	}
 	var all []*Obligation
 	for _, r := range reps {
+		if only := os.Getenv("GOVC_ONLY"); only != "" {
+			// development aid: solve (and print) only the obligations whose name contains one of the given substrings
+			var keep []*Obligation
+			for _, o := range r.Obligs {
+				for _, pat := range strings.Split(only, ",") {
+					if strings.Contains(o.Name, pat) {
+						keep = append(keep, o)
+						break
+					}
+				}
+			}
+			r.Obligs = keep
+		}
 		all = append(all, r.Obligs...)
 	}
 	if *dump != "" {
